@@ -8,6 +8,7 @@
 package main
 
 import (
+	"os"
 	"errors"
 	"fmt"
 	"math/rand"
@@ -522,6 +523,9 @@ func keptStats(i int, rng *rand.Rand) {
 	bad := func(fam, msg string) {
 		run.Violation("C14/modified-rule-lost-statistics:"+fam, fmt.Sprintf("[%s, %s path] %s", fam, path, msg), map[string]interface{}{"family": fam, "path": path, "case": i})
 	}
+	if os.Getenv("VERIF_C14_FAMILY") == "hotspot" && i%6 != 4 && i%6 != 3 && i%6 != 2 {
+		return // (run for C05: hot-parameter cases only)
+	}
 	switch i % 6 {
 	case 5: // three breakers on one resource: A unchanged; B and C have the same statistic parameters and are both modified
 		// (thresholds only) after their windows have diverged (C tripped on 3 errors and was closed again by its probe,
@@ -737,6 +741,9 @@ func main() {
 			continue
 		}
 		f := families[rng.Intn(len(families))]
+		if os.Getenv("VERIF_C14_FAMILY") == "hotspot" && !strings.HasPrefix(f.name, "hotspot") {
+			continue // (run for C05: the hot-parameter families and the kept-statistics cases only)
+		}
 		c := &caseDesc{Family: f.name, Variant: rng.Intn(12), Edit: edits[rng.Intn(len(edits))], Path: vk.PickS(rng, "whole-set", "per-resource")}
 		// (the per-resource path cannot edit another resource's rules - except in the associated-rule family, where the
 		// "other" resource is the referenced one and is loaded / cleared through its own per-resource calls)
